@@ -15,6 +15,7 @@ EXPLANATION = (
     "(e) the equal edge of claims[\"sd_hash\"] == recomputed digest. C04.K3: the recomputed digest is base64_hash of a string built from the presented JWT, all presented disclosures and the `~` separator. "
     "C04.K4: every claim name the verifier reads from the KB-JWT is written by the holder's KB-JWT builder, which computes sd_hash with the same function over the same three roots."
     " Exact form: the text hashed into sd_hash is evaluated structurally to its token normal form for 0..3 disclosures (sa/strmodel.py; join, +, format!, push_str loops, once/chain) and must equal jwt~d0~…~d(n-1)~ on the verifier side (K3) and the holder side (K4); only when a builder is outside that model do the rules fall back to the presence of the three roots. When the key-binding code has been dissolved into the constructor's view, K2 is judged under the both-given valuation (the other valuations are K1's)."
+    " C04.K2 (f): the algorithm of the KB-JWT's Validation comes from the KB-JWT's own header (or a constant default), never from the issuer-signed JWT (SDJWTCommon.sign_alg / unverified_sd_jwt, or a parser field derived from them); only the constructor(s) of that Validation value are judged, not what the verifier object was computed from earlier."
 )
 ASSUMPTIONS = [
     "jsonwebtoken::decode enforces signature, algorithm family and the Validation's audience settings (9.x contract)",
